@@ -14,8 +14,9 @@
 (*   ReplaceFails os.replace raised OSError: the temp file is removed      *)
 (*   Crash        the process dies; its temp file stays behind as junk     *)
 (*   Read         another process opens the final file and reads it        *)
-(*   ClearAll     clear(): the final file is removed (temp files do not    *)
-(*                match the pattern and stay)                              *)
+(*   ClearAll     clear() by any process: the final file is removed (temp  *)
+(*                files do not match the pattern and stay -- a writer in   *)
+(*                progress is not disturbed)                               *)
 (*                                                                         *)
 (* UseTemp = FALSE is the naive protocol (open the final file for writing) *)
 (* and exists so that TLC shows what the temp file + replace buys: it      *)
@@ -131,6 +132,12 @@ C27_FinalNeverPartial == final # None => final.len = 6
 
 \* no reader ever gets a partial entry
 C27_ReaderSeesWholeEntries == seen # None => seen.len = 6
+
+\* clear() removes entries only: a step that empties the final name leaves every writer's
+\* temporary file and progress alone, so a writer that got as far as closing its file can
+\* always finish (a concurrent clear can only cause misses, never a failed load)
+C27_ClearLeavesWritersAlone == [][(final # None /\ final' = None) => UNCHANGED <<temp, pc>>]_vars
+C27_ClosedTempIsWhole == \A p \in Procs : pc[p] = "closed" => (temp[p] # None /\ temp[p].len = 6)
 
 \* the final entry only ever changes to "nothing" or to a complete entry, in one step
 C27_FinalChangesAtomically == [][final' = final \/ final' = None \/ final'.len = 6]_vars
